@@ -13,6 +13,8 @@ ASSUME = [
 
 def describe(sig, st):
     p = sig.split("|")
+    if p[0] == "float":
+        return base.describe(sig, st)
     return "round trip fails (%s) for the minimal type [%s] with %s values" % (p[1], p[2] if len(p) > 2 else "", p[3] if len(p) > 3 else "")
 
 
@@ -20,8 +22,10 @@ def run(tier, scratch, record=False):
     return base.run_typed(PROP, "C04", tier, scratch, record, "exploration",
                           "%(ntypes)d type constructions emitted by TLC (round-trippable ones are exercised) x %(nmodes)d value modes x 3 paths (Marshal->"
                           "Unmarshal, Encoder->Decoder with two documents, MarshalIndent->Unmarshal); non-trivial = distinct (type, mode) pairs",
-                          ASSUME, describe)
+                          ASSUME + [base.FT_ASSUME], describe)
 
 
 def replay(scratch, rp):
+    if "digits" in (rp.get("case") or {}):
+        return base.replay(scratch, rp)
     return base.typed_replay(scratch, rp, "C04")
